@@ -105,10 +105,21 @@ def make_driver(sc, env):
                   init_program_tags=d.get("init_program_tags", True))
     else:
         drv = cls(d["path"])
-    adv = d.get("seq_advance", 0)
-    for _ in range(adv):
-        next(drv._sequence)
+    advance_sequence(drv, d.get("seq_advance", 0))
     return drv
+
+
+def advance_sequence(drv, n):
+    """pre-advance the driver's real sequence generator (same as having sent n connected messages).  The
+    generator is an internal of the library: if it is not there (refactored), the phase is simply not
+    pre-set - the run is still valid - and the last value drawn is None."""
+    seq = getattr(drv, "_sequence", None)
+    v = None
+    if seq is None or not hasattr(seq, "__next__"):
+        return None
+    for _ in range(n):
+        v = next(seq)
+    return v
 
 
 def begin_op(env, op_id):
